@@ -49,16 +49,19 @@ def group_programs(rng, n):
     progs = [
         {"threads": [("t1", [("make", None), ("make", "gw1")]), ("t2", [("make", None), ("exit",), ("make", None)])]},
         {"threads": [("t1", [("make", None), ("make", None)]), ("t2", [("make", None), ("make", None)]), ("t3", [("make", None)])]},
-        {"threads": [("t1", [("make", "x"), ("exit",), ("make", "x")]), ("t2", [("make", "y"), ("make", None)])]},
+        {"threads": [("t1", [("make", "x"), ("exit",), ("make", "x"), ("reexit",)]), ("t2", [("make", "y"), ("make", None)])]},
         {"threads": [("t1", [("make", "x"), ("make", "x")])]},
         {"threads": [("t1", [("make", None), ("make", "gw0")]), ("t2", [("make", "gw5"), ("exit",)])]},
+        # a creation that fails (the process cannot be started) next to other automatic allocations: its id stays consumed
+        {"threads": [("t1", [("make_fail", None), ("make", None)]), ("t2", [("make", None)])]},
+        {"threads": [("t1", [("make_fail", None)]), ("t2", [("make", None), ("make", None)]), ("t3", [("make_fail", "x"), ("make", "x")])]},
     ]
     for _ in range(n):
         th = []
         for t in range(rng.randint(1, 3)):
             ops = []
             for _j in range(rng.randint(1, 3)):
-                ops.append(rng.choice([("make", None), ("make", None), ("make", rng.choice(["x", "y", "gw1", "gw2"])), ("exit",)]))
+                ops.append(rng.choice([("make", None), ("make", None), ("make", rng.choice(["x", "y", "gw1", "gw2"])), ("exit",), ("make_fail", None), ("reexit",)]))
             th.append((f"t{t+1}", ops))
         progs.append({"threads": th})
     return progs
@@ -142,6 +145,12 @@ def run(ctx):
     g = tlc.run("MCGroupIds", "GI_norace.cfg", scratch=ctx.scratch, timeout=600, parse_trace=False)
     if g.violated != "NoSharedId":
         ctx.machinery(f"TLC mutant MCGroupIds/GI_norace (non-atomic _register) not killed: {g.violated}")
+    g = tlc.run("MCGroupIds", "GI_fail.cfg", scratch=ctx.scratch, timeout=600, parse_trace=False)
+    if not g.ok:
+        ctx.machinery(f"TLC MCGroupIds/GI_fail: {g.violated} {g.error[:300]}")
+    g = tlc.run("MCGroupIds", "GI_giveback.cfg", scratch=ctx.scratch, timeout=600, parse_trace=False)
+    if g.violated != "AutoIdsUnique":
+        ctx.machinery(f"TLC mutant MCGroupIds/GI_giveback (counter handed back when a creation fails) not killed: {g.violated}")
     cases, metas = [], []
     # enumerated: all lists of <= 2 pairs over the alphabet, sampled lists of 3
     pairs = list(itertools.product(KEYS, VALS))
